@@ -166,7 +166,9 @@ def json_depth_limit():
     t = threading.Thread(target=lambda: res.append(measure_json_depth_limit()))
     t.start()
     t.join()
-    n = min(res[0], measure_json_depth_limit())
+    if not res:
+        raise Shape('measurement of the json.loads nesting limit failed')
+    n = res[0]       # only the fresh thread: the same value whoever calls the translator (Gen/C19.v stays stable)
     if n <= 2 * JSON_DEPTH_ALLOWANCE:
         raise Shape(f'json.loads nesting limit {n} is implausibly small')
     return 'N', _cN(n - JSON_DEPTH_ALLOWANCE)
